@@ -57,6 +57,62 @@ fn revoke_routing_dead_entity_first() { revoke_reactor_routes_every_trigger(true
 #[kani::unwind(4)]
 fn revoke_routing_live_entity() { revoke_reactor_routes_every_trigger(false) }
 
+/// recorder standing in for `EntityReactors::remove` (what a removal does to a table is decided by entreactors.remove_*):
+/// which table was addressed, with which reaction type and reactor id
+pub static mut REMOVALS: usize = 0x5EED_0D00;
+pub static mut REMOVED: [(usize, u8, bool, u32); 4] = [(0x5EED, 9, false, 0); 4];
+pub fn removals() -> usize { unsafe { REMOVALS - 0x5EED_0D00 } }
+pub fn record_remove(this: &mut EntityReactors, rtype: EntityReactionType, reactor_id: SystemCommand)
+{
+    let (kind, is_ka) = match rtype
+    {
+        EntityReactionType::Insertion(t) => (0u8, t == TypeId::of::<Ka>()),
+        EntityReactionType::Mutation(t)  => (1u8, t == TypeId::of::<Ka>()),
+        EntityReactionType::Removal(t)   => (2u8, t == TypeId::of::<Ka>()),
+        EntityReactionType::Event(t)     => (3u8, t == TypeId::of::<Ea>()),
+    };
+    unsafe
+    {
+        let n = removals();
+        if n < 4 { REMOVED[n] = (this as *mut EntityReactors as usize, kind, is_ka, reactor_id.index()); }
+        REMOVALS += 1;
+    }
+}
+
+/// C06 (locality of the entity-scoped part): a token naming (insertion of Ka on e1) and (event Ea on e2) addresses
+/// exactly those two (entity, reaction type) pairs, each once, for the token's reactor: e1's table is asked to remove
+/// the insertion trigger only, e2's table the event trigger only - the same reactor's event trigger on e1 and insertion
+/// trigger on e2, which the token does not name, are not touched.  `EntityReactors::remove` is replaced by a recorder.
+#[kani::proof]
+#[kani::stub(core::any::TypeId::of, crate::vh::stub_typeid_of)]
+#[kani::stub(<core::any::TypeId as crate::vh::PEq>::eq, crate::vh::stub_typeid_eq)]
+#[kani::stub(EntityReactors::remove, record_remove)]
+#[kani::unwind(4)]
+fn revoke_reactor_exact_pairs_two_entities()
+{
+    let mut world = World::new();
+    let mut cache = ReactCache::default();
+    let me = SystemCommand(ent(41));
+    let e1 = world.spawn(EntityReactors::default()).id();
+    let e2 = world.spawn(EntityReactors::default()).id();
+    let token = RevokeToken{
+        reactors: { let a: Arc<[ReactorType; 2]> = Arc::new([ReactorType::EntityInsertion(e1, TypeId::of::<Ka>()), ReactorType::EntityEvent(e2, TypeId::of::<Ea>())]); a },
+        id: me,
+    };
+    let wp = &mut world as *mut World;
+    revoke_reactor(In(token), ResMut::m_new(&mut cache), qry(wp));
+    let p1 = world.get::<EntityReactors>(e1).unwrap() as *const EntityReactors as usize;
+    let p2 = world.get::<EntityReactors>(e2).unwrap() as *const EntityReactors as usize;
+    assert!(removals() == 2, "C06 (complete + local): one removal per entity-scoped trigger the token names, no other table access");
+    let (r0, r1) = unsafe { (REMOVED[0], REMOVED[1]) };
+    let want1 = (p1, 0u8, true, 41u32);     // (e1's table, Insertion, of Ka, this reactor)
+    let want2 = (p2, 3u8, true, 41u32);     // (e2's table, Event, of Ea, this reactor)
+    assert!((r0 == want1 && r1 == want2) || (r0 == want2 && r1 == want1),
+        "C06 (local): e1's table is asked to remove exactly (Insertion Ka), e2's exactly (Event Ea), for this reactor - not e1's event trigger, not e2's insertion trigger (either order)");
+    kani::cover!(true, "end of harness reached");
+    std::mem::forget(world); std::mem::forget(cache);
+}
+
 /// C07: the handle kind follows the mode, and the handle names exactly the given system command.
 fn reactor_mode_prepare(m: u8)
 {
